@@ -26,7 +26,7 @@ Section Laws.
     - destruct (cmp k k'); reflexivity.
     - destruct (cmp k' k1) eqn:E1; cbn [fget].
       + apply cmp_eq in E1. subst k1. destruct (cmp k k'); reflexivity.
-      + reflexivity.
+      + destruct (cmp k k'); reflexivity.
       + rewrite IH. destruct (cmp k k1) eqn:A, (cmp k k') eqn:B; try reflexivity.
         apply cmp_eq in A, B. subst. rewrite cmp_refl in E1. discriminate.
   Qed.
@@ -81,7 +81,7 @@ Section Laws.
     (forall i, b <= i < b + N.of_nat n -> f i = g i) -> tab cmp f b n = tab cmp g b n.
   Proof.
     induction n as [|n IH]; intros b H; [reflexivity|].
-    cbn [tab]. rewrite <- (H b) by lia. rewrite (IH (b + 1)) by (intros i Hi; apply H; lia).
+    cbn [tab]; unfold opt_put. rewrite <- (H b) by lia. rewrite (IH (b + 1)) by (intros i Hi; apply H; lia).
     reflexivity.
   Qed.
 
@@ -94,7 +94,7 @@ Section Laws.
     tab cmp g b n = fput cmp k v (tab cmp f b n).
   Proof.
     induction n as [|n IH]; intros b Hj Hf Hg Hframe Hfresh; [lia|].
-    cbn [tab]. destruct (N.eq_dec b j) as [->|Hne].
+    cbn [tab]; unfold opt_put. destruct (N.eq_dec b j) as [->|Hne].
     - rewrite Hf, Hg. f_equal. apply tab_ext. intros i Hi. apply Hframe; lia.
     - rewrite (Hframe b) by lia.
       rewrite (IH (b + 1)); try assumption; try lia.
@@ -109,7 +109,7 @@ Section Laws.
     exists i, b <= i < b + N.of_nat n /\ f i = Some (k, v).
   Proof.
     induction n as [|n IH]; intros b H; [discriminate|].
-    cbn [tab] in H. destruct (f b) as [[k1 v1]|] eqn:E.
+    cbn [tab] in H; unfold opt_put in H. destruct (f b) as [[k1 v1]|] eqn:E.
     - rewrite fget_fput in H. destruct (cmp k k1) eqn:C.
       + apply cmp_eq in C. subst k1. inversion H; subst v1. exists b. split; [lia|exact E].
       + destruct (IH _ H) as (i & Hi & Fi). exists i. split; [lia|exact Fi].
@@ -122,7 +122,7 @@ Section Laws.
     forall i v, b <= i < b + N.of_nat n -> f i <> Some (k, v).
   Proof.
     induction n as [|n IH]; intros b H i v Hi; [lia|].
-    cbn [tab] in H. destruct (f b) as [[k1 v1]|] eqn:E.
+    cbn [tab] in H; unfold opt_put in H. destruct (f b) as [[k1 v1]|] eqn:E.
     - rewrite fget_fput in H. destruct (cmp k k1) eqn:C; [discriminate| |];
         (destruct (N.eq_dec i b) as [->|Hne];
          [rewrite E; intros X; inversion X; subst; rewrite cmp_refl in C; discriminate
@@ -175,7 +175,7 @@ Proof.
   induction n as [|n IH]; intros b.
   - cbn [tab fget]. destruct (N.leb_spec b id); [|reflexivity].
     destruct (N.ltb_spec id (b + N.of_nat 0)); [lia|reflexivity].
-  - cbn [tab]. destruct (g b) as [d|] eqn:E; cbn [option_map].
+  - cbn [tab]; unfold opt_put. destruct (g b) as [d|] eqn:E; cbn [option_map].
     + rewrite id_get_put, IH. destruct (N.compare_spec id b) as [->|H|H].
       * rewrite E. destruct (N.leb_spec b b); [|lia]. destruct (N.ltb_spec b (b + N.of_nat (S n))); [reflexivity|lia].
       * destruct (N.leb_spec (b + 1) id); [lia|]. destruct (N.leb_spec b id); [lia|]. reflexivity.
